@@ -276,7 +276,7 @@ func ParseData(data []byte) (Config, error) {
 						if *analog.NoteNegative < 0 || *analog.NoteNegative > 127 {
 							return Config{}, fmt.Errorf("[%s] %s: note value outside of 0-127 range: %d", name, evcodeRaw, *analog.NoteNegative)
 						}
-						noteNeg = byte(*analog.Note)
+						noteNeg = byte(*analog.NoteNegative)
 						bidirectional = true
 					}
 
@@ -284,6 +284,8 @@ func ParseData(data []byte) (Config, error) {
 						MappingType:      mappingType,
 						Note:             note,
 						NoteNeg:          noteNeg,
+						ChannelOffset:    byte(analog.ChannelOffset),
+						ChannelOffsetNeg: byte(analog.ChannelOffsetNegative),
 						FlipAxis:         analog.FlipAxis,
 						Bidirectional:    bidirectional,
 						DeadzoneAtCenter: analog.DeadzoneAtCenter,
